@@ -7,8 +7,8 @@ Modelled: `DecryptX25519` header split (util/crypto/x25519.go), `AESKey.DecryptR
 (aes.go), `UnmarshalEd25519PublicKey/PrivateKey` length switch (ed25519.go), `splitTopic`,
 `validateSegments`, `ValidateTopic`, `ValidatePattern`, `TopicOwner` (commonspace/pubsub/topic.go),
 the space-id separator slicing of `ValidateSpaceHeader` (spacepayloads/payloads.go), the nil-snapshot
-access of `settingsstate.NewStateFromSnapshot`, and the arithmetic of `genTupleRanges` /
-`getBottomRange` (app/ldiff/hashrange.go). `readMsg` is `AnySync.Handshake.readRaw`.
+access of `settingsstate.NewStateFromSnapshot`, and the wrapping arithmetic of `genTupleRanges`
+(app/ldiff/hashrange.go; `getBottomRange` is stated on the ldiff area's model, see Props/C11). `readMsg` is `AnySync.Handshake.readRaw`.
 
 Guards and constants come from `Generated/BytesConsts.lean` (regenerated from the source): if a guard
 disappears from the source, the corresponding constant flips and the totality theorem fails.
@@ -183,15 +183,5 @@ def genTupleRanges (lo hi : Nat) (df : Nat) : Out (List Tuple) :=
     let align := ((w % df) + 1) % df
     let perRange := if align = 0 then u64 (perRange + 1) else perRange
     .ok (genLoop df align df 0 perRange lo)
-
-/-- `getBottomRange`: the bucket index divides by `perRange` -/
-def bottomBucket (lo hi : Nat) (df : Nat) (el : Nat) : Out Nat :=
-  if df = 0 then .panic
-  else
-    let w := u64 (hi + 2 ^ 64 - lo)
-    let perRange := w / df
-    let align := ((w % df) + 1) % df
-    let perRange := if align = 0 then u64 (perRange + 1) else perRange
-    if perRange = 0 then .panic else .ok (u64 (el + 2 ^ 64 - lo) / perRange)
 
 end AnySync.Bytes
